@@ -3,5 +3,5 @@ EXTENDS Bindgen
 VARIABLE done
 GInit == IInit /\ done = FALSE
 GNext == UNCHANGED <<ivars, done>>
-Emit == PrintT(<<"REPLAY", ToJson([models |-> Models])>>)
+Emit == PrintT(<<"REPLAY", ToJson([models |-> Models, histories |-> OutputHistory])>>)
 =============================================================================
